@@ -532,12 +532,6 @@ theorem udpFinish5 (a b c d e : Byte) (addr : Bytes) (p : Nat) (payload : Bytes)
   conv => lhs; arg 1; arg 3; rw [e2, List.drop_succ_cons]
   exact this
 
-/-- The host text `parseUDPHeader` reports for a header built from `host`. -/
-def rebuiltHost (c : IPText) (host : Text) : Text :=
-  match c.parse host with
-  | some ip => ipString c ip
-  | none => host
-
 theorem build_parse (c : IPText) (hrt : c.RT) (host : Text) (port : Nat) (payload : Bytes)
     (hp : port < 65536) (hh : c.parse host = none → host.length ≤ 255) :
     parseUDPHeader c (buildUDPHeader c host port payload) = .ok ⟨rebuiltHost c host, port, payload⟩ := by
@@ -729,6 +723,101 @@ theorem decodeNeg_accept (pf : Profile) (hpf : pf.creds = none) (bs : Bytes) (cm
     · subst hu
       simp [encGreeting, htl]
       omega
+
+theorem decodeAuth_accept (pf : Profile) (user pass : Text) (off : Nat) (pre bs : Bytes) (cmd : Nat) (a : Addr)
+    (port used : Nat) (pre' : Bytes) (h : decodeAuth pf user pass off pre bs = .accept cmd a port used pre') :
+    ∃ (rsv : Byte) (rest : Bytes),
+      bs = encAuth user pass ++ ((⟨cmd, rsv, a, port⟩ : Request).enc ++ rest) ∧
+      user.length ≤ 255 ∧ pass.length ≤ 255 ∧
+      (⟨cmd, rsv, a, port⟩ : Request).WF = true ∧ pf.cmds.contains cmd = true ∧
+      used = off + (encAuth user pass).length + (⟨cmd, rsv, a, port⟩ : Request).enc.length ∧
+      pre' = pre ++ [1, 0] := by
+  match bs, h with
+  | ver :: ulen :: rest, h =>
+    simp only [decodeAuth] at h
+    by_cases hv : ver.toNat ≠ 1
+    · simp [hv] at h
+    by_cases hl : rest.length < ulen.toNat + 1
+    · simp [hv, hl] at h
+    simp only [hv, hl, if_false] at h
+    by_cases hp : (rest.drop (ulen.toNat + 1)).length < byteAt rest ulen.toNat
+    · simp only [hp, if_true] at h
+      cases h
+    simp only [hp, if_false] at h
+    by_cases hcr : ¬ (rest.take ulen.toNat = user ∧
+        (rest.drop (ulen.toNat + 1)).take (byteAt rest ulen.toNat) = pass)
+    · simp only [hcr, if_false] at h
+      cases h
+    have hcr : rest.take ulen.toNat = user ∧
+        (rest.drop (ulen.toNat + 1)).take (byteAt rest ulen.toNat) = pass := Classical.not_not.mp hcr
+    simp only [hcr, and_self, if_true] at h
+    obtain ⟨rsv, tl, hbs, hwf, hc, hu, hpre⟩ := decodeReq_accept _ _ _ _ _ _ _ _ _ h
+    have hul := UInt8.toNat_lt ulen
+    have hi : ulen.toNat < rest.length := by omega
+    have hdrop : rest.drop ulen.toNat = rest[ulen.toNat] :: rest.drop (ulen.toNat + 1) :=
+      List.drop_eq_getElem_cons hi
+    have hx : byteAt rest ulen.toNat = (rest[ulen.toNat]).toNat := by
+      simp [byteAt, List.getD_eq_getElem?_getD, hi]
+    have hxl := UInt8.toNat_lt (rest[ulen.toNat])
+    have huser : user.length = ulen.toNat := by rw [← hcr.1]; simp; omega
+    have hpass : pass.length = byteAt rest ulen.toNat := by
+      rw [← hcr.2]; simp only [List.length_take, List.length_drop] at hp ⊢; omega
+    have hv1 : ver = 1 := by
+      apply UInt8.toNat_inj.mp
+      have : ver.toNat = 1 := by omega
+      simpa using this
+    refine ⟨rsv, tl, ?_, by omega, by omega, hwf, hc, ?_, hpre⟩
+    · have e1 : rest = rest.take ulen.toNat ++ rest.drop ulen.toNat := (List.take_append_drop _ _).symm
+      have e2 : rest.drop (ulen.toNat + 1) =
+          (rest.drop (ulen.toNat + 1)).take (byteAt rest ulen.toNat) ++
+            (rest.drop (ulen.toNat + 1)).drop (byteAt rest ulen.toNat) := (List.take_append_drop _ _).symm
+      rw [hcr.2, hbs] at e2
+      rw [hdrop, e2, hcr.1] at e1
+      subst hv1
+      rw [e1]
+      simp [encAuth, huser, hpass, hx, u8_toNat]
+    · subst hu
+      simp [encAuth, huser, hpass]
+      omega
+
+theorem decodeNeg_accept_auth (pf : Profile) (user pass : Text) (hpf : pf.creds = some (user, pass)) (bs : Bytes)
+    (cmd : Nat) (a : Addr) (port used : Nat) (pre : Bytes) (h : decodeNeg pf bs = .accept cmd a port used pre) :
+    ∃ (methods : Bytes) (rsv : Byte) (rest : Bytes),
+      bs = encGreeting methods ++ (encAuth user pass ++ ((⟨cmd, rsv, a, port⟩ : Request).enc ++ rest)) ∧
+      0 < methods.length ∧ methods.length ≤ 255 ∧ methods.contains (u8 pf.method) = true ∧
+      user.length ≤ 255 ∧ pass.length ≤ 255 ∧
+      (⟨cmd, rsv, a, port⟩ : Request).WF = true ∧ pf.cmds.contains cmd = true ∧
+      used = (encGreeting methods).length + (encAuth user pass).length +
+        (⟨cmd, rsv, a, port⟩ : Request).enc.length ∧
+      pre = [5, u8 pf.method, 1, 0] := by
+  match bs, h with
+  | ver :: nm :: rest, h =>
+    simp only [decodeNeg] at h
+    by_cases hv : ver.toNat ≠ 5
+    · simp [hv] at h
+    by_cases hn : nm.toNat = 0
+    · simp [hv, hn] at h
+    by_cases hl : rest.length < nm.toNat
+    · simp [hv, hn, hl] at h
+    by_cases hm : ¬ (rest.take nm.toNat).contains (u8 pf.method) = true
+    · simp only [hv, hn, hl, hm, not_false_eq_true, if_true, if_false] at h
+      cases h
+    simp only [hv, hn, hl, hm, if_false, hpf] at h
+    obtain ⟨rsv, tl, hbs, hu1, hp1, hwf, hc, hu, hpre⟩ := decodeAuth_accept _ _ _ _ _ _ _ _ _ _ _ h
+    have hnl := UInt8.toNat_lt nm
+    have htl : (rest.take nm.toNat).length = nm.toNat := by simp; omega
+    have hv5 : ver = 5 := by
+      apply UInt8.toNat_inj.mp
+      have : ver.toNat = 5 := by omega
+      simpa using this
+    refine ⟨rest.take nm.toNat, rsv, tl, ?_, by omega, by omega, by simpa using hm, hu1, hp1, hwf, hc, ?_, ?_⟩
+    · subst hv5
+      rw [← hbs]
+      simp [encGreeting, htl, u8_toNat]
+    · subst hu
+      simp [encGreeting, htl]
+      omega
+    · rw [hpre]; rfl
 
 /-! ### Round trip -/
 
@@ -923,6 +1012,124 @@ theorem decodeNeg_enc_auth (pf : Profile) (user pass : Text) (hpf : pf.creds = s
   simp [encAuth]
   omega
 
+/-! ### handleConnection -/
+
+theorem runFlat_suffix {α : Type} (p : P α) (bs : Bytes) : ∃ k, (p.runFlat bs).2 = bs.drop k := by
+  induction p generalizing bs with
+  | done a => exact ⟨0, by simp [P.runFlat]⟩
+  | read n e k ih =>
+    simp only [P.runFlat]
+    by_cases hn : n ≤ bs.length
+    · simp only [hn, if_true]
+      obtain ⟨j, hj⟩ := ih (bs.take n) (bs.drop n)
+      exact ⟨n + j, by rw [hj, List.drop_drop]⟩
+    · exact ⟨bs.length, by simp [hn]⟩
+
+theorem drop_of_suffix_length (bs : Bytes) (k used : Nat) (hu : used ≤ bs.length)
+    (h : bs.length - (bs.drop k).length = used) : bs.drop k = bs.drop used := by
+  simp only [List.length_drop] at h
+  by_cases hk : k ≤ bs.length
+  · have : k = used := by omega
+    rw [this]
+  · have h1 : used = bs.length := by omega
+    rw [h1, List.drop_length, List.drop_eq_nil_of_le (by omega)]
+
+theorem u8_mod (n : Nat) : u8 (n % 256) = u8 n := by
+  apply UInt8.toNat_inj.mp
+  simp [u8, UInt8.toNat_ofNat']
+
+theorem putBe16_eq_encPort (p : Nat) : putBe16 p = encPort p := by
+  simp [putBe16, encPort, u8_mod]
+
+theorem reply_success : isReply 0 sendSuccess = true := by decide
+
+theorem virtualDNS_text : asciiText socks5.VirtualDNSIP = [49, 48, 46, 48, 46, 48, 46, 49] := by decide
+
+theorem to4_length (ip b : Bytes) (h : to4 ip = some b) : b.length = 4 := by
+  unfold to4 at h
+  by_cases h4 : ip.length = 4
+  · simp [h4] at h; subst h; exact h4
+  · by_cases hm : isV4Mapped ip = true
+    · simp only [h4, hm, if_false, if_true, Option.some.injEq] at h
+      subst h
+      have : ip.length = 16 := by
+        simp only [isV4Mapped, Bool.and_eq_true, beq_iff_eq] at hm
+        exact hm.1.1.1
+      simp [this]
+    · simp [h4, hm] at h
+
+theorem bindReply_ok (ip : Bytes) (port : Nat) : bindReply ip port (sendSuccessWithBind ip port) = true := by
+  unfold bindReply sendSuccessWithBind
+  rw [putBe16_eq_encPort]
+  cases h : to4 ip with
+  | none => simp [isReply, encPort, socks5.Version, socks5.RepSuccess, socks5.AddrIPv4, u8]
+  | some b =>
+    have hb := to4_length ip b h
+    match b, hb with
+    | [b1, b2, b3, b4], _ =>
+      simp [isReply, encPort, socks5.Version, socks5.RepSuccess, socks5.AddrIPv4, u8]
+
+theorem conn_holds (c : IPText) (cfg : ConnCfg) (chunks : List Bytes) (tail : Tail) :
+    holdsConn c cfg chunks.flatten (handleConnection c cfg ⟨chunks, tail⟩) = true := by
+  have hf := P.runSrc_flat (handshakeP c) ⟨chunks, tail⟩
+  have hh := handshake_flat_holds c chunks.flatten
+  obtain ⟨k, hk⟩ := runFlat_suffix (handshakeP c) chunks.flatten
+  have hf1 : ((handshakeP c).runSrc ⟨chunks, tail⟩).1 = ((handshakeP c).runFlat chunks.flatten).1 := hf.1
+  have hf2 : ((handshakeP c).runSrc ⟨chunks, tail⟩).2.flat = ((handshakeP c).runFlat chunks.flatten).2 := hf.2
+  unfold handleConnection handshake
+  rw [hf1, hf2]
+  unfold holdsHs holdsNeg hsObs at hh
+  simp only at hh
+  generalize (handshakeP c).runFlat chunks.flatten = res at hh hk
+  obtain ⟨⟨out, written⟩, left⟩ := res
+  simp only at hh hk ⊢
+  unfold holdsConn
+  cases hd : decodeNeg listenerProfile chunks.flatten with
+  | reject why used pre =>
+    rw [hd] at hh
+    simp only [agrees, Bool.and_eq_true, decide_eq_true_eq] at hh
+    obtain ⟨⟨⟨h1, _⟩, h3⟩, h4⟩ := hh
+    cases out with
+    | ok r => simp [HsOut.res] at h1
+    | fail e => simp [h3, h4]
+  | accept cmd a port used pre =>
+    rw [hd] at hh
+    simp only [agrees, Bool.and_eq_true, decide_eq_true_eq, beq_iff_eq] at hh
+    obtain ⟨⟨h1, h2⟩, h3⟩ := hh
+    obtain ⟨methods, rsv, rest, hbs, _, _, _, _, hcmd, hused, _⟩ :=
+      decodeNeg_accept listenerProfile rfl _ _ _ _ _ _ hd
+    have hule : used ≤ chunks.flatten.length := by
+      rw [hused]
+      conv => rhs; rw [hbs]
+      simp only [List.length_append]
+      omega
+    have hleft : left = chunks.flatten.drop used := by
+      rw [hk]
+      exact drop_of_suffix_length _ _ _ hule (by rw [← hk]; exact h3)
+    have hc13 : cmd = 1 ∨ cmd = 3 := by simpa [listenerProfile] using hcmd
+    cases out with
+    | fail e => simp [HsOut.res] at h1
+    | ok r =>
+      simp only [HsOut.res, Option.some.injEq] at h1
+      subst h1 h2 hleft
+      simp only [hsExpect, socks5.CmdConnect, socks5.CmdUDPAssoc]
+      rcases hc13 with hc | hc
+      · subst hc
+        simp only [if_true, handleConnect, virtualDNS_text]
+        by_cases hdot : hostText c a = [49, 48, 46, 48, 46, 48, 46, 49] ∧ port = 853
+        · simp [hdot, dotIntercept, isPrefixOf_self_append, drop_self_append, reply_failure]
+        · have hdot' : dotIntercept (hostText c a) port = false := by
+            simp only [dotIntercept, Bool.and_eq_false_iff, beq_eq_false_iff_ne]
+            by_cases hh1 : hostText c a = [49, 48, 46, 48, 46, 48, 46, 49]
+            · exact Or.inr (fun hp => hdot ⟨hh1, hp⟩)
+            · exact Or.inl hh1
+          cases ht : cfg.hasTunnel <;> cases hok : cfg.tunnelOk <;>
+            simp [hdot, hdot', ht, hok, isPrefixOf_self_append, drop_self_append, reply_failure, reply_success]
+      · subst hc
+        simp only [show ¬ (3 = 1) by decide, if_false, if_true, handleUDPAssociate]
+        cases hr : cfg.hasRelay <;> cases hok : cfg.relayOk <;>
+          simp [hr, hok, isPrefixOf_self_append, drop_self_append, reply_failure, reply_cmd, bindReply_ok]
+
 /-! ### The relay: every schedule forwards every payload intact -/
 
 def Job.isOwned : Job → Bool
@@ -1036,5 +1243,84 @@ theorem relay_holds (c : IPText) (ds : List Bytes) (sch : List RStep)
 /-- Every schedule that reads all datagrams and runs all goroutines exists: read everything, then
 run the goroutines front to back. -/
 def fifoSchedule (n : Nat) : List RStep := List.replicate n .read ++ List.replicate n (.run 0)
+
+/-! ### The relay, both directions -/
+
+theorem expect_wf (c : IPText) (hrt : c.RT) (data : Bytes) (d : UDest) (h : udpExpect c data = some d) :
+    d.port < 65536 ∧ (c.parse d.host = none → d.host.length ≤ 255) := by
+  have hs := parseUDP_spec c data
+  rw [h] at hs
+  cases hp : parseUDPHeader c data with
+  | fail e => simp [hp, UOut.res] at hs
+  | ok d' =>
+    simp only [hp, UOut.res, Option.some.injEq] at hs
+    subst hs
+    exact parse_ok_wf c hrt data d' hp
+
+theorem reply_expect (c : IPText) (hrt : c.RT) (d : UDest) (resp : Bytes) (hp : d.port < 65536)
+    (hh : c.parse d.host = none → d.host.length ≤ 255) :
+    udpExpect c (replyDatagram c d resp) = some ⟨rebuiltHost c d.host, d.port, resp⟩ := by
+  rw [← parseUDP_spec, replyDatagram, build_parse c hrt d.host d.port resp hp hh]
+  rfl
+
+theorem relayIO_holds (c : IPText) (hrt : c.RT) (dns : Bool) (answer : Bool → Bytes → Bytes) (ds : List Bytes)
+    (sch : List RStep) (hq : ((Relay.init ds).exec c .copyAtRead sch).quiescent = true) :
+    holdsRelayIO c dns answer ds
+      (relayIO c dns answer ((Relay.init ds).exec c .copyAtRead sch).sent) = true := by
+  have hperm : ((Relay.init ds).exec c .copyAtRead sch).sent.Perm (relayExpect c ds) :=
+    List.isPerm_iff.mp (relay_holds c ds sch hq)
+  generalize ((Relay.init ds).exec c .copyAtRead sch).sent = sent at hperm
+  unfold holdsRelayIO relayIO
+  simp only [Bool.and_eq_true, List.isPerm_iff]
+  refine ⟨⟨hperm.filter _, (hperm.filter _).map _⟩, ?_⟩
+  have hmap : (sent.map (fun d => replyDatagram c d (answer (isDnsRoute dns d) d.payload))).map (udpExpect c) =
+      sent.map (fun d => some (⟨rebuiltHost c d.host, d.port, answer (isDnsRoute dns d) d.payload⟩ : UDest)) := by
+    rw [List.map_map]
+    apply List.map_congr_left
+    intro d hd
+    have hmem : d ∈ relayExpect c ds := hperm.mem_iff.mp hd
+    obtain ⟨data, _, hdata⟩ := List.mem_filterMap.mp hmem
+    obtain ⟨hp, hh⟩ := expect_wf c hrt data d hdata
+    exact reply_expect c hrt d _ hp hh
+  rw [hmap]
+  exact hperm.map _
+
+/-! ### handleSocksConnection -/
+
+theorem ad_reply_failure : isFailureReply (sendReply0 adapter.socksRepServerFailure) = true := by decide
+
+theorem adConn_holds (c : IPText) (cfg : AdCfg) (chunks : List Bytes) (tail : Tail) :
+    holdsAdConn cfg chunks.flatten (adConnection c cfg ⟨chunks, tail⟩).1
+      (chunks.flatten.length - (adConnection c cfg ⟨chunks, tail⟩).2.flat.length) true = true := by
+  have hf := P.runSrc_flat (adHandshakeP c cfg) ⟨chunks, tail⟩
+  have hf1 : ((adHandshakeP c cfg).runSrc ⟨chunks, tail⟩).1 = ((adHandshakeP c cfg).runFlat chunks.flatten).1 := hf.1
+  have hf2 : ((adHandshakeP c cfg).runSrc ⟨chunks, tail⟩).2.flat =
+      ((adHandshakeP c cfg).runFlat chunks.flatten).2 := hf.2
+  have hh := adHandshake_flat_holds c cfg chunks.flatten
+  unfold holdsAd holdsNeg adObs at hh
+  simp only at hh
+  unfold holdsAdConn adConnection adNegotiate
+  rw [hf1]
+  generalize (adHandshakeP c cfg).runFlat chunks.flatten = res at hh hf2
+  obtain ⟨⟨out, written⟩, left⟩ := res
+  simp only at hh hf2 ⊢
+  generalize chunks.flatten.length = L at hh ⊢
+  cases hd : decodeNeg (adapterProfile cfg) chunks.flatten with
+  | reject why used pre =>
+    rw [hd] at hh
+    simp only [agrees, Bool.and_eq_true, decide_eq_true_eq] at hh
+    obtain ⟨⟨⟨h1, h2⟩, h3⟩, h4⟩ := hh
+    cases out with
+    | ok r => simp [AdOut.res] at h1
+    | fail e => simp [hf2, h2, h3, h4]
+  | accept cmd a port used pre =>
+    rw [hd] at hh
+    simp only [agrees, Bool.and_eq_true, decide_eq_true_eq, beq_iff_eq] at hh
+    obtain ⟨⟨h1, h2⟩, h3⟩ := hh
+    cases out with
+    | fail e => simp [AdOut.res] at h1
+    | ok r =>
+      subst h2
+      simp [hf2, h3, isPrefixOf_self_append, drop_self_append, ad_reply_failure]
 
 end Tunnox.C20
